@@ -11,6 +11,7 @@
    whole group) and Proofs/CanonOrbit.v (idempotence, same representative). *)
 From Coq Require Import List NArith Bool.
 From V Require Proofs.GrayAll Proofs.CanonAllN.
+From V Require Proofs.SjtAll Proofs.CanonNpnAll.
 From V Require Import Base.Res Model.Kernels Model.Canon Spec.Bfun Spec.Transform Proofs.Order Proofs.ActGroup
   Proofs.CanonWalk Proofs.CanonOrbit.
 Import ListNotations.
@@ -128,3 +129,50 @@ Theorem C04_n_same_rep_iff_general : forall n t1 t2, (n <= 31)%nat -> wf n t1 ->
 Proof. exact V.Proofs.CanonAllN.C04_n_same_rep_iff_general. Qed.
 Print Assumptions C04_n_min_general.
 Print Assumptions C04_n_same_rep_iff_general.
+
+
+(* ---- P and NPN canonization beyond the property bound, by PROOFS that the generated walks cover the whole group
+        (Proofs/SjtAll.v: the Steinhaus-Johnson-Trotter swap sequence is a closed walk through all n! permutations, any
+        n >= 2; Proofs/GrayAll.v: the Gray flip sequence, any n >= 1), not by computation.
+        P: every n below the usize bound. NPN: every n <= 31 (the limit is the u32 certificate mask);
+        proofs in Proofs/SjtAll.v and Proofs/CanonNpnAll.v *)
+Theorem C04_p_min_general : forall n t, N.of_nat n < 2 ^ 64 -> wf n t ->
+  exists c perm, p_canonization n t = Ok (c, perm) /\
+    forall perm' c', is_perm n perm' -> wf n c' ->
+      (forall y, y < 2 ^ N.of_nat n -> val c' y = act n perm' 0 (val t) y) -> big c <= big c'.
+Proof. exact V.Proofs.SjtAll.p_min_general. Qed.
+Theorem C04_p_same_rep_iff_general : forall n t1 t2, N.of_nat n < 2 ^ 64 -> wf n t1 -> wf n t2 ->
+  exists c1 p1 c2 p2,
+    p_canonization n t1 = Ok (c1, p1) /\ p_canonization n t2 = Ok (c2, p2) /\
+    (c1 = c2 <-> equivP n (val t1) (val t2)).
+Proof. exact V.Proofs.SjtAll.p_same_rep_iff_general. Qed.
+Theorem C04_npn_min_general : forall n t, (n <= 31)%nat -> wf n t ->
+  exists c perm mask, npn_canonization n t = Ok (c, perm, mask) /\
+    forall perm' mask' c', is_perm n perm' -> mask' < 2 ^ (N.of_nat n + 1) -> wf n c' ->
+      (forall y, y < 2 ^ N.of_nat n -> val c' y = act n perm' mask' (val t) y) -> big c <= big c'.
+Proof. exact V.Proofs.CanonNpnAll.C04_npn_min_general. Qed.
+Theorem C04_npn_idempotent_general : forall n t, (n <= 31)%nat -> wf n t ->
+  exists c perm mask perm' mask',
+    npn_canonization n t = Ok (c, perm, mask) /\ npn_canonization n c = Ok (c, perm', mask').
+Proof. exact V.Proofs.CanonNpnAll.C04_npn_idempotent_general. Qed.
+Theorem C04_npn_same_rep_iff_general : forall n t1 t2, (n <= 31)%nat -> wf n t1 -> wf n t2 ->
+  exists c1 p1 m1 c2 p2 m2,
+    npn_canonization n t1 = Ok (c1, p1, m1) /\ npn_canonization n t2 = Ok (c2, p2, m2) /\
+    (c1 = c2 <-> equivNPN n (val t1) (val t2)).
+Proof. exact V.Proofs.CanonNpnAll.C04_npn_same_rep_iff_general. Qed.
+(* the coverage facts behind them: the generated swap sequence is valid, closed and visits every permutation *)
+Theorem C04_sjt_general : forall n, (2 <= n)%nat ->
+  exists sw, generate_swaps n true = Ok sw /\ swaps_valid n sw = true /\ swaps_closed n sw = true /\ sw <> [] /\
+             forall p, is_perm n p -> In p (perms_after (identity n) sw).
+Proof. exact V.Proofs.SjtAll.sjt_general. Qed.
+Theorem C04_coverage_P_general : forall n, (2 <= n)%nat ->
+  exists sw, swaps_for n = Ok sw /\ swaps_valid n sw = true /\ swaps_closed n sw = true /\ sw <> [] /\
+             forall p, is_perm n p -> In (p, 0) (p_certs n sw).
+Proof. exact V.Proofs.SjtAll.coverage_P_general. Qed.
+Print Assumptions C04_p_min_general.
+Print Assumptions C04_p_same_rep_iff_general.
+Print Assumptions C04_npn_min_general.
+Print Assumptions C04_npn_idempotent_general.
+Print Assumptions C04_npn_same_rep_iff_general.
+Print Assumptions C04_sjt_general.
+Print Assumptions C04_coverage_P_general.
